@@ -85,6 +85,8 @@ class C02(CheckBase):
             for kind in self.kinds:
                 for fs in FLAGSETS:
                     acts.append(("make", "create", kind, fs))
+                    if fs != "FT":
+                        acts.append(("make", "create-public", kind, fs))     # protected key stored as a PUBLIC object
             for kind in ("aes128", "generic32", "ec256_priv"):
                 for fs in FLAGSETS:
                     acts.append(("make", "generate", kind, fs))
@@ -143,8 +145,8 @@ class C02(CheckBase):
             ft = self.flags_tpl(fs)
             known = {t: v for t, v in F.base(kind) if t in secret_attrs(kind) and isinstance(v, bytes)}
             usage = [(C.CKA_DERIVE, True)] if F.klass(kind) == C.CKO_SECRET_KEY else []
-            if origin == "create":
-                T = F.template(kind, token=False, private=True, label=b"k", plain=False, extra=ft + usage)
+            if origin in ("create", "create-public"):
+                T = F.template(kind, token=False, private=(origin == "create"), label=b"k", plain=False, extra=ft + usage)
                 r = p.CreateObject(m.s, T)
             elif origin == "generate":
                 if kind == "ec256_priv":
